@@ -33,6 +33,7 @@ def build(sh, normalize_kv=None, span_func=None, cls=None, evaluator=None, share
     kw.update(extra)
     C = cls or (mod.Curve, mod.Surface, mod.Volume)[pd - 1]
     o = C(**kw)
+    _handed = []
     if alt_repr:
         # (tuples of ints / floats for control points and knot vectors: an equally valid way to write the same input)
         f = dict(f, P=[_as_alt(q) for q in f["P"]], kv=[_as_alt(U) for U in f["kv"]])
@@ -43,18 +44,40 @@ def build(sh, normalize_kv=None, span_func=None, cls=None, evaluator=None, share
                     f["kv"][d] = f["kv"][e]
     if pd == 1:
         o.degree = f["deg"][0]
-        o.set_ctrlpts(tuple(f["P"]) if alt_repr else [list(p) for p in f["P"]])
-        o.knotvector = f["kv"][0] if alt_repr else list(f["kv"][0])
+        _P = tuple(f["P"]) if alt_repr else [list(p) for p in f["P"]]
+        _U = [f["kv"][0] if alt_repr else list(f["kv"][0])]
+        o.set_ctrlpts(_P)
+        o.knotvector = _U[0]
     elif pd == 2:
         o.degree_u, o.degree_v = f["deg"]
-        o.set_ctrlpts(tuple(f["P"]) if alt_repr else [list(p) for p in f["P"]], f["size"][0], f["size"][1])
-        o.knotvector_u, o.knotvector_v = (f["kv"][0], f["kv"][1]) if (share_kv or alt_repr) else (list(f["kv"][0]), list(f["kv"][1]))
+        _P = tuple(f["P"]) if alt_repr else [list(p) for p in f["P"]]
+        _U = [f["kv"][0], f["kv"][1]] if (share_kv or alt_repr) else [list(f["kv"][0]), list(f["kv"][1])]
+        o.set_ctrlpts(_P, f["size"][0], f["size"][1])
+        o.knotvector_u, o.knotvector_v = _U
     else:
         o.degree_u, o.degree_v, o.degree_w = f["deg"]
-        o.set_ctrlpts(tuple(f["P"]) if alt_repr else [list(p) for p in f["P"]], *f["size"])
-        o.knotvector_u, o.knotvector_v, o.knotvector_w = f["kv"] if (share_kv or alt_repr) else [list(U) for U in f["kv"]]
+        _P = tuple(f["P"]) if alt_repr else [list(p) for p in f["P"]]
+        _U = list(f["kv"]) if (share_kv or alt_repr) else [list(U) for U in f["kv"]]
+        o.set_ctrlpts(_P, *f["size"])
+        o.knotvector_u, o.knotvector_v, o.knotvector_w = _U
     if evaluator is not None:
         o.evaluator = evaluator
+    if not alt_repr and not share_kv:
+        _handed.append(_P)
+        if normalize_kv:
+            _handed.extend(_U)
+    if not alt_repr and not share_kv:
+        # The caller's buffers are overwritten after the object has been defined: an object that kept references to them instead of
+        # its own copies changes now, and every later comparison shows it.  (Knot vectors handed to a non-normalising object are
+        # kept by reference in geomdl as it stands - documented behaviour of that option - so they are left alone.)
+        for q in _handed:
+            for i in range(len(q)):
+                q[i] = 9.0e9 if not isinstance(q[i], list) else q[i]
+        for q in _handed:
+            for r in q:
+                if isinstance(r, list):
+                    for i in range(len(r)):
+                        r[i] = 9.0e9
     return o
 
 
